@@ -738,12 +738,28 @@ def _merge_variant(arg):
         data[-3][2] = len(datas)
         data[-3][4] = bool(arg.get('compressed'))
         data[-2][2] = [d[-2][2][0] for d in datas]
-        out = Encoder().process(data, wire_template_data=False)
-        raw = bytes(out.serialized_bytes)
-        Decoder().process(raw)
-        return {'hex': raw.hex()}
     except Exception:
         return None
+    # by the interpreting encoder; if that one refuses, by the compiling one (the two paths are supposed
+    # to be interchangeable - a variant only one of them can make is exactly what C08 wants to see)
+    for kw in ({}, {'compiled_template_cache_max': 2}):
+        try:
+            out = Encoder(**kw).process(json_copy(data), wire_template_data=False)
+            raw = bytes(out.serialized_bytes)
+        except Exception:
+            continue
+        for kw2 in ({}, {'compiled_template_cache_max': 2}):
+            try:
+                Decoder(**kw2).process(raw)
+                return {'hex': raw.hex(), 'by': 'compiled' if (kw or kw2) else 'interpreted'}
+            except Exception:
+                continue
+    return None
+
+
+def json_copy(x):
+    import copy
+    return copy.deepcopy(x)
 
 
 core.register('merge_variant', _merge_variant)
@@ -847,13 +863,18 @@ def _compress_variant(arg):
         data[-3][2] = nsub
         data[-3][4] = True
         data[-2][2] = subsets
-        try:
-            out = Encoder().process(data, wire_template_data=False)
-            raw = bytes(out.serialized_bytes)
-            Decoder().process(raw)
-            return {'hex': raw.hex(), 'nsub': nsub}
-        except Exception:
-            continue
+        for kw in ({}, {'compiled_template_cache_max': 2}):       # either path may make it (see _merge_variant)
+            try:
+                out = Encoder(**kw).process(json_copy(data), wire_template_data=False)
+                raw = bytes(out.serialized_bytes)
+            except Exception:
+                continue
+            for kw2 in ({}, {'compiled_template_cache_max': 2}):
+                try:
+                    Decoder(**kw2).process(raw)
+                    return {'hex': raw.hex(), 'nsub': nsub}
+                except Exception:
+                    continue
     return None
 
 
@@ -903,7 +924,9 @@ def admit_all(entries, want_values=False):
         if st != 'ok':
             raise core.HarnessError('admission failed for %s: %s' % (e['ref'], r))
         if not r['ok']:
-            rejected.append({'ref': e['ref'], 'error': r.get('full_error') or r.get('info_error')})
+            rejected.append({'ref': e['ref'], 'error': r.get('full_error') or r.get('info_error'), 'hex': e['hex'],
+                             'full_ok': 'full' in r, 'info_ok': 'info' in r, 'src': e['src'],
+                             'has_truth': 'truth' in e})
             continue
         e = dict(e)
         e['adm'] = r
